@@ -88,6 +88,23 @@ Theorem C11_frame_lognormal_sync : forall (h : heap) (self : loc) (o : obj) (g :
 Proof. exact lognormal_sync_frame. Qed.
 Print Assumptions C11_frame_lognormal_sync.
 
+(* Sampler objects (the block samplers a Gibbs sampler holds and re-targets at every step): re-binding ANY attribute of an
+   object of a sampler class -- cached target evaluations, initial point, target, state -- leaves every other object, and
+   hence the denotation of every density / likelihood / model, unchanged.  This is the rule behind the translator's
+   generic kind "sampler-attr" (no per-site list). *)
+Theorem C11_frame_sampler_write : forall (h : heap) (l : loc) (f : string) (v : value) (o : obj),
+  get h l = Some o -> String.prefix "Sampler." (class_of o) = true -> f <> "__class__" ->
+  ext h (setattr h l f v) /\
+  (closed h -> forall k l', l' < length h -> den k (setattr h l f v) l' = den k h l').
+Proof.
+  intros h l f v o G S F.
+  assert (E : ext h (setattr h l f v)).
+  { eapply ext_setattr_scratch; [exact G | | exact F | apply ext_refl].
+    unfold is_scratch, scratch_class. rewrite S. apply orb_true_r. }
+  split; [exact E|]. intros C k l' Hl. apply den_ext; assumption.
+Qed.
+Print Assumptions C11_frame_sampler_write.
+
 (* a conditioned copy keeps the random-variable name of its original: the name of the copy IS the name read at the original *)
 Theorem C11_copy_keeps_name : forall (k : nat) (h : heap) (self : loc) (o : obj),
   get h self = Some o -> str_eqb (class_of o) "Likelihood" = false ->
